@@ -7,12 +7,8 @@ package extension
 
 /*@
 // ---- interface contracts used by the extension code (assumed for every implementation) ----
-ghost srcLenOf(r addr) int            // length of the source a Reader reads
 ghost var ctxState() int              // the private state of a parser.Context
 
-iface text.Reader.Source
-  ensures len(result) == srcLenOf(recv)
-  modifies nothing
 iface parser.Context.ComputeIfAbsent
   modifies ctxState
 iface parser.Context.Set
